@@ -982,7 +982,10 @@ func (s *Stage) finalize(file *finalFile) {
 	defer fileLock.Unlock()
 
 	existingState := s.getFileState(file.path)
-	if existingState != stateValidated {
+	if existingState != stateValidated || s.getFileHash(file.path) != file.hash {
+		// Either not validated, or a newer version of this name was validated
+		// in the meantime (its staged file replaced ours and it is finalized
+		// through its own entry).
 		s.logDebug("Ignoring invalid (final):", file.name, existingState)
 		return
 	}
